@@ -170,13 +170,14 @@ fn mask_ips(ip: IpAddr, mask: IpAddr) -> ExpressionResult<IpAddr> {
 
 /// Returns an ipv4 address that masks out the given number of bits.
 fn ipv4_mask(subnet_bits: u32) -> IpAddr {
-    let bits = !0u32 << (32 - subnet_bits);
+    // `/0` masks everything out: a shift by the full width is not defined for `<<`
+    let bits = (!0u32).checked_shl(32 - subnet_bits).unwrap_or(0);
     Ipv4Addr::from(bits).into()
 }
 
 /// Returns an ipv6 address that masks out the given number of bits.
 fn ipv6_mask(subnet_bits: u32) -> IpAddr {
-    let bits = !0u128 << (128 - subnet_bits);
+    let bits = (!0u128).checked_shl(128 - subnet_bits).unwrap_or(0);
     Ipv6Addr::from(bits).into()
 }
 
